@@ -377,3 +377,47 @@ Example C02_history_example :
      = None :: None :: None :: Some (0%Z, 2%nat) :: Some (0%Z, 0%nat) :: None :: None :: Some (0%Z, 2%nat)
        :: None :: Some (1%Z, 2%nat) :: None :: Some (0%Z, 2%nat) :: None :: None :: Some (0%Z, 2%nat) :: Some (0%Z, 0%nat) :: nil.
 Proof. vm_compute. split; reflexivity. Qed.
+
+(* ---- "a dependency that a target stopped declaring no longer triggers it":
+   the two-phase replacement of the dependency list (Build/TwoPhase.v) ---- *)
+From Redo Require Import Build.TwoPhase.
+(* start (every edge of the target flagged), ANY declarations by anybody, a
+   successful record (what is still flagged deleted): each remaining edge of the
+   target was declared during this build, with the mode it now has *)
+Theorem C02_undeclared_dependency_is_dropped : forall d t l x,
+  In x (deps (zap_deps2 (declare_all (zap_deps1 d t) l) t)) -> d_target x = t ->
+  d_delete x = false /\ exists m, In (t, m, d_source x) l /\ d_mode x = m.
+Proof. exact edges_are_the_declared_ones. Qed.
+Check C02_undeclared_dependency_is_dropped : forall d t l x,
+  In x (deps (zap_deps2 (declare_all (zap_deps1 d t) l) t)) -> d_target x = t ->
+  d_delete x = false /\ exists m, In (t, m, d_source x) l /\ d_mode x = m.
+Print Assumptions C02_undeclared_dependency_is_dropped.
+
+(* and the last declaration of each edge of the target is there *)
+Theorem C02_declared_dependency_is_kept : forall d t l1 m s l2,
+  (forall m', ~ In (t, m', s) l2) ->
+  In {| d_target := t; d_source := s; d_mode := m; d_delete := false |}
+     (deps (zap_deps2 (declare_all (zap_deps1 d t) (l1 ++ (t, m, s) :: l2)) t)).
+Proof. exact declared_edges_are_kept. Qed.
+Check C02_declared_dependency_is_kept : forall d t l1 m s l2,
+  (forall m', ~ In (t, m', s) l2) ->
+  In {| d_target := t; d_source := s; d_mode := m; d_delete := false |}
+     (deps (zap_deps2 (declare_all (zap_deps1 d t) (l1 ++ (t, m, s) :: l2)) t)).
+Print Assumptions C02_declared_dependency_is_kept.
+
+(* the two zaps touch nobody else's edges *)
+Theorem C02_other_targets_edges_untouched : forall d t x, d_target x <> t ->
+  (In x (deps (zap_deps1 d t)) <-> In x (deps d)) /\ (In x (deps (zap_deps2 d t)) <-> In x (deps d)).
+Proof. intros d t x H. split; [apply zap1_other|apply zap2_other]; exact H. Qed.
+Check C02_other_targets_edges_untouched : forall d t x, d_target x <> t ->
+  (In x (deps (zap_deps1 d t)) <-> In x (deps d)) /\ (In x (deps (zap_deps2 d t)) <-> In x (deps d)).
+Print Assumptions C02_other_targets_edges_untouched.
+
+(* not vacuous: target 1 had edges to 2 and 3; the rebuild declares 3 (now as
+   ifcreate) and 4; target 5's edge is left alone *)
+Example C02_two_phase_example :
+  let e (t s : nat) m := {| d_target := t; d_source := s; d_mode := m; d_delete := false |} in
+  let d := {| rows := []; deps := [e 1%nat 2%nat DModified; e 1%nat 3%nat DModified; e 5%nat 2%nat DModified]; maxrun := 0%Z |} in
+  deps (zap_deps2 (declare_all (zap_deps1 d 1%nat) [(1%nat, DCreated, 3%nat); (1%nat, DModified, 4%nat)]) 1%nat)
+  = [e 5%nat 2%nat DModified; e 1%nat 3%nat DCreated; e 1%nat 4%nat DModified].
+Proof. vm_compute. reflexivity. Qed.
